@@ -7,4 +7,4 @@ Extraction "../ocaml/C07/gen_c07.ml"
   dmatch mmatch elem_validb doc_validb dstate knullable
   createChildModel simple_validate mixed_validate buildDFA dfa_validate check_content
   makeContentModel validate_obj elem_check_obj elem_check decl_check verr_code follow_of start_of
-  attrs_validb attr_errors attrs_validb_t attr_errors_t lookup_defs delivered validate_attr_value check_idrefs.
+  attrs_validb attr_errors attrs_validb_t attr_errors_t lookup_defs env_of_decls delivered validate_attr_value check_idrefs.
